@@ -75,6 +75,10 @@ class C13:
                 g = gp.Gen(draw, v, exec_safe=True)
                 lines = ["def f(a=%s):" % g.const(), "    return [%s]" % ", ".join(g.const() for _ in range(draw(st.integers(1, 6))))]
                 lines += ["k%d = %s" % (i, g.const()) for i in range(draw(st.integers(1, 8)))]
+                if draw(st.integers(0, 3)) == 0:
+                    # integers of thousands of bits (marshal writes 15-bit digits: lengths that are multiples of 15, and not)
+                    nd = draw(st.sampled_from([975, 976, 1125, 1500, 260, 4000]))
+                    lines += ["big1 = 0x%s" % ("f" * nd), "big2 = -0x1%s" % ("0" * nd), "print(big1 % 1000003, big2 % 999983)"]
                 lines += ["print(repr(f()))", "print(sorted(n for n in dir() if n.startswith('k')))"]
                 src = "\n".join(lines) + "\n"
             return {"v": v, "host": host, "src": src, "ts": draw(st.sampled_from([1, 1234567, 2 ** 31 - 1])),
